@@ -13,6 +13,12 @@
     * "for a contraction it lies within error_tol/(1-modulus) of the true fixed point":
       `fp_iterate_contraction`, `fp_iterate_contraction_metric`, `fp_iterate_affine_contraction`
       (all hypotheses discharged for the maps of the correspondence), `ig_contraction_distance`
+    * "whenever polym_lcp_solver reports convergence, the profile is a Nash equilibrium of the
+      polymatrix game":   `howson_init_state`, `howson_rows_equiv` (every tableau row-equivalent to
+      the initial system, canonical basis), `howson_converged_complementary` (label invariant through
+      levels and back-tracking), `howson_feasible` (tolerances 0), `howson_system_matrix_form`,
+      `howson_converged_nash_partial` (converged ⇒ the returned profile is the x-part of a solution
+      of the LCP; LCP ⇒ Nash is left to the exact spec oracle), `howson_converged_lcp_solution_partial`
     * "whenever mclennan_tourky reports convergence, the returned profile … is an epsilon-Nash
       equilibrium":   `isNashTol_iff`, `mt_converged_eps_nash`;  "consists of probability vectors":
       `dotRows_blocks_prob`, `unflatten_prob`, `brSelection_block_prob`, `mt_profile_prob_lh_partial` (rho from
@@ -25,6 +31,10 @@ import QEProofs.Lemmas.C15Nash
 import QEProofs.Lemmas.C15Convex
 import QEProofs.Lemmas.C15Affine
 import QEProofs.Lemmas.C15Blocks
+import QEProofs.Lemmas.C15Howson
+import QEProofs.Lemmas.C15HowsonLabels
+import QEProofs.Lemmas.C15HowsonInit
+import QEProofs.Lemmas.C15HowsonSol
 namespace QE.C15
 
 /-! ## compute_fixed_point, method = 'iteration' -/
@@ -805,5 +815,248 @@ example : IsProbVec ([1/3, 2/3] : List Rat) ∧
     rcases this with rfl | rfl <;> decide +kernel
 
 end convex
+
+/-! ## polym_lcp_solver (Howson's LCP)
+
+`n = Σ nums + N`; columns `k < n` are the slacks `w_k`, columns `n + k` the variables `z_k`
+(`z = (x, v)`), column `2n` the right-hand side; the *label* of a variable column `k` is `k % n`.
+`allFound`, `negP` are ghost flags of the model (the code computes neither): every ratio test found
+a unique row with a positive pivot; a back-tracking step was taken at level 0. -/
+
+section howson
+open QE.Pivot
+variable {K : Type} [Field K] [LinearOrder K] [IsStrictOrderedRing K]
+
+/-- **State after the `N` initial pivots** (lines 137-143), for every well-formed start: the tableau
+    is row-equivalent to `[I | -M | q]`, the basic columns are unit vectors, and the labels of the
+    basis are those of level 0 (every label once, except that for each player the label of
+    `x_{q,start_q}` occurs twice and that of `v_q` not at all). -/
+theorem howson_init_state (nums start : List Nat) (A : Nat → Nat → Nat → Nat → K) (pcm : K)
+    (hstart : ∀ q, q < nums.length → start.getD q 0 < nums.getD q 0) :
+    HInv (nums.foldl (· + ·) 0 + nums.length) (hTableau nums A pcm)
+      (hInit nums start (hTableau nums A pcm)).1 (hInit nums start (hTableau nums A pcm)).2 ∧
+    ∀ L, L < nums.foldl (· + ·) 0 + nums.length →
+      cnt (nums.foldl (· + ·) 0 + nums.length) (hInit nums start (hTableau nums A pcm)).2 L
+        + Dn (nums.foldl (· + ·) 0) nums.length 0 L = 1 + Un nums start 0 L := by
+  obtain ⟨h1, _, h3⟩ := hInitK_inv nums start A pcm hstart nums.length (le_refl _)
+  rw [hInit_eq]
+  refine ⟨h1, ?_⟩
+  intro L hL
+  have := h3 L hL
+  unfold Dn Un
+  rw [Nat.sub_zero, ← List.range_eq_range']
+  unfold ind at this
+  simpa using this
+
+/-- **Every tableau of the run is row-equivalent to the initial system** `[I | -M | q]` — and in
+    canonical form with respect to the basis kept by the code — for every game, start, `max_iter`,
+    tolerance `tol_piv ≥ 0`, through all levels and back-tracking steps, as long as every ratio
+    test has found a row (ghost flag `allFound`; when it fails the code divides by a non-positive
+    pivot). `HInv` spells out: shape `n × (2n+1)`, same solution set of the `n` equations as the
+    initial tableau, `T[i, basis[j]] = δ_ij`, all basic variables are variable columns. -/
+theorem howson_rows_equiv (nums start : List Nat) (A : Nat → Nat → Nat → Nat → K) (pcm : K)
+    (maxIter : Int) (tp td : K) (htp : 0 ≤ tp) (fuel : Nat)
+    (hstart : ∀ q, q < nums.length → start.getD q 0 < nums.getD q 0)
+    (haf : (polymLcp nums start A pcm maxIter tp td fuel).allFound = true) :
+    HInv (nums.foldl (· + ·) 0 + nums.length) (hTableau nums A pcm)
+      (polymLcp nums start A pcm maxIter tp td fuel).T
+      (polymLcp nums start A pcm maxIter tp td fuel).basis := by
+  unfold polymLcp at haf ⊢
+  exact hRun_hinv nums start maxIter tp td htp (hTableau nums A pcm) fuel _ none
+    (fun _ => (howson_init_state nums start A pcm hstart).1) haf
+
+/-- **The basis stays complementary up to the duplicated labels of the unfinished players**, and a
+    converged run ends with a complementary basis: if the run converged (and the ghost flags are
+    clean, the fuel of the model sufficed), the level is `N` and every label `L < n` occurs exactly
+    once among the basic variables. (`hRun_linv` is the invariant at every point of the run: at
+    level `p` the label of `x_{q,start_q}` occurs twice and that of `v_q` not at all for the players
+    `q ≥ p`, the entering column standing for the missing occurrence inside a level; the proof never
+    looks at the numbers in the tableau.) -/
+theorem howson_converged_complementary (nums start : List Nat) (A : Nat → Nat → Nat → Nat → K) (pcm : K)
+    (maxIter : Int) (tp td : K) (fuel : Nat)
+    (hstart : ∀ q, q < nums.length → start.getD q 0 < nums.getD q 0)
+    (hconv : (polymLcp nums start A pcm maxIter tp td fuel).converging = true)
+    (haf : (polymLcp nums start A pcm maxIter tp td fuel).allFound = true)
+    (hneg : (polymLcp nums start A pcm maxIter tp td fuel).negP = false)
+    (herr : (polymLcp nums start A pcm maxIter tp td fuel).err = false)
+    (hfuel : (polymLcp nums start A pcm maxIter tp td fuel).outOfFuel = false) :
+    (polymLcp nums start A pcm maxIter tp td fuel).p = nums.length ∧
+    (polymLcp nums start A pcm maxIter tp td fuel).basis.length = nums.foldl (· + ·) 0 + nums.length ∧
+    ∀ L, L < nums.foldl (· + ·) 0 + nums.length →
+      cnt (nums.foldl (· + ·) 0 + nums.length) (polymLcp nums start A pcm maxIter tp td fuel).basis L = 1 := by
+  have hlx : ∀ q, q < nums.length → labX nums start q < nums.foldl (· + ·) 0 := by
+    intro q hq
+    have := indptr_block_le nums q hq
+    have := hstart q hq
+    rw [foldl_add_eq_sum]; unfold labX; omega
+  obtain ⟨hi1, hi2⟩ := howson_init_state nums start A pcm hstart
+  obtain ⟨S, hS⟩ : ∃ S : HState K, S = ⟨(hInit nums start (hTableau nums A pcm)).1,
+      (hInit nums start (hTableau nums A pcm)).2, 0, 0, false, true, [], true, 0, 0, 0, 0, false, false, false⟩ :=
+    ⟨_, rfl⟩
+  have h0 : LInv nums start S none := by
+    rw [hS]
+    unfold LInv
+    right; right
+    refine ⟨hi1.nr, le_refl _, by simp, hi1.blen, ?_⟩
+    intro _
+    exact ⟨fun _ => hi2, fun hc => absurd hc (by simp)⟩
+  have hpl : polymLcp nums start A pcm maxIter tp td fuel = hRun nums start maxIter tp td fuel S none := by
+    rw [hS]; rfl
+  rw [hpl] at hconv haf hneg herr hfuel ⊢
+  have hr := hRun_linv nums start maxIter tp td hlx fuel S none h0
+  generalize hRun nums start maxIter tp td fuel S none = R at hconv haf hneg herr hfuel hr ⊢
+  rcases hr with hr | hr | ⟨hL, hexit⟩
+  · rw [hr] at hfuel; exact absurd hfuel (by simp)
+  · rw [hr] at herr; exact absurd herr (by simp)
+  · unfold LInv at hL
+    rcases hL with hL | hL | ⟨_, hp0, hpN, hbl, hm⟩
+    · rw [hL] at hneg; exact absurd hneg (by simp)
+    · rw [hL] at haf; exact absurd haf (by simp)
+    · have hpe : R.p = (nums.length : Int) := by
+        by_contra hne
+        exact hexit ⟨by omega, hconv⟩
+      have hm' := hm hconv
+      refine ⟨hpe, hbl, ?_⟩
+      intro L hL
+      by_cases hret : R.retro = true
+      · have := (hm'.2 hret).1; omega
+      · have hq := hm'.1 (by simpa using hret) L hL
+        rw [hpe] at hq
+        have e : ((nums.length : Int)).toNat = nums.length := by simp
+        rw [e] at hq
+        unfold Dn Un at hq
+        have hD : ¬ (nums.foldl (· + ·) 0 + nums.length ≤ L ∧ L < nums.foldl (· + ·) 0 + nums.length) := by omega
+        rw [if_neg hD, Nat.sub_self] at hq
+        simpa using hq
+
+/-- **What "solves all rows of `[I | -M | q]`" says**: with `w_i = u_i`, `z_j = u_{n+j}` it is the
+    system `w = M z + q` of the linear complementarity problem, `M` the matrix of lines 87-110
+    (`hM`: costs `positive_cost_maker - A[p,p2][a,b]` between different players, `-1` against the
+    player's own `v`, the sum constraints in the last `N` rows), `q = (0,…,0,-1,…,-1)`. -/
+theorem howson_system_matrix_form (nums : List Nat) (A : Nat → Nat → Nat → Nat → K) (pcm : K) (u : Nat → K) :
+    RowsSat (hTableau nums A pcm) u (nums.foldl (· + ·) 0 + nums.length) ↔
+    ∀ i, i < nums.foldl (· + ·) 0 + nums.length →
+      u i = (∑ j ∈ Finset.range (nums.foldl (· + ·) 0 + nums.length),
+              hM nums A pcm (nums.foldl (· + ·) 0) i j * u (nums.foldl (· + ·) 0 + nums.length + j))
+            + (if i < nums.foldl (· + ·) 0 then 0 else -(1 : K)) := by
+  unfold RowsSat
+  constructor
+  · intro h i hi
+    have := (hTableau_rowSat_iff nums A pcm u i hi).mp (h i hi)
+    linarith
+  · intro h i hi
+    rw [hTableau_rowSat_iff nums A pcm u i hi]
+    have := h i hi
+    linarith
+
+/-- **Soundness up to feasibility (partial).** If the run reports convergence, the ghost flags are
+    clean and the right-hand side of the final tableau is non-negative (checked on the final state;
+    that the minimum-ratio rule preserves it from the start is not proved here), then the basic
+    solution `(w, z)` read off the final tableau solves the linear complementarity problem the
+    code set up (lines 87-118): `w - M z = q` (all rows of `[I | -M | q]`), `w, z ≥ 0` and
+    `w_k z_k = 0` for every `k`; and the `x`-part of `z` is exactly the profile the code returns
+    (`_get_solution`, `hNE`). Row equivalence and complementarity are the inductive invariants above.
+    What is missing for "the returned profile is a Nash equilibrium": feasibility as an invariant,
+    and the (purely algebraic) passage from a solution of this LCP to probability vectors and best
+    responses of the polymatrix game; both are covered by the exact spec oracle on every run. -/
+theorem howson_converged_lcp_solution_partial (nums start : List Nat) (A : Nat → Nat → Nat → Nat → K) (pcm : K)
+    (maxIter : Int) (tp td : K) (htp : 0 ≤ tp) (fuel : Nat)
+    (hstart : ∀ q, q < nums.length → start.getD q 0 < nums.getD q 0)
+    (hconv : (polymLcp nums start A pcm maxIter tp td fuel).converging = true)
+    (haf : (polymLcp nums start A pcm maxIter tp td fuel).allFound = true)
+    (hneg : (polymLcp nums start A pcm maxIter tp td fuel).negP = false)
+    (herr : (polymLcp nums start A pcm maxIter tp td fuel).err = false)
+    (hfuel : (polymLcp nums start A pcm maxIter tp td fuel).outOfFuel = false)
+    (hfeas : ∀ i, i < nums.foldl (· + ·) 0 + nums.length →
+      0 ≤ (polymLcp nums start A pcm maxIter tp td fuel).T.get i
+        ((polymLcp nums start A pcm maxIter tp td fuel).T.nc - 1)) :
+    let st := polymLcp nums start A pcm maxIter tp td fuel
+    let n := nums.foldl (· + ·) 0 + nums.length
+    let u := uSol st.T st.basis n
+    RowsSat (hTableau nums A pcm) u n ∧ (∀ j, 0 ≤ u j) ∧ (∀ k, k < n → u k * u (k + n) = 0) ∧
+    (∀ k, k < nums.foldl (· + ·) 0 → (hNE nums st).getD k 0 = u (k + n)) := by
+  intro st n u
+  have hinv := howson_rows_equiv nums start A pcm maxIter tp td htp fuel hstart haf
+  obtain ⟨_, hbl, hcnt⟩ := howson_converged_complementary nums start A pcm maxIter tp td fuel hstart
+    hconv haf hneg herr hfuel
+  refine ⟨uSol_rowsSat n _ _ _ hinv, fun j => uSol_nonneg _ _ _ hfeas j,
+    fun k hk => uSol_complementary _ _ _ hbl k hk (hcnt k hk), ?_⟩
+  intro k hk
+  unfold hNE
+  rw [List.getD_eq_getElem?_getD, List.getElem?_map, List.getElem?_range hk]
+  simp only [Option.map_some, Option.getD_some]
+  exact hZ_eq_uSol n _ _ _ hinv k
+
+/-- **Feasibility is an invariant at tolerances 0**: when all costs of the LCP are non-negative
+    (`M[i,j] ≥ 0` for `i, j < ta`: what `positive_cost_maker` achieves), the right-hand side is
+    non-negative after the initial pivots and stays so through every pivot of the run chosen by the
+    minimum-ratio rule with `tol_piv = tol_ratio_diff = 0`. -/
+theorem howson_feasible (nums start : List Nat) (A : Nat → Nat → Nat → Nat → K) (pcm : K)
+    (maxIter : Int) (fuel : Nat)
+    (hstart : ∀ q, q < nums.length → start.getD q 0 < nums.getD q 0)
+    (hcost : ∀ i j, i < nums.foldl (· + ·) 0 → j < nums.foldl (· + ·) 0 →
+      0 ≤ hM nums A pcm (nums.foldl (· + ·) 0) i j)
+    (haf : (polymLcp nums start A pcm maxIter 0 0 fuel).allFound = true) :
+    ∀ i, i < nums.foldl (· + ·) 0 + nums.length →
+      0 ≤ (polymLcp nums start A pcm maxIter 0 0 fuel).T.get i
+        ((polymLcp nums start A pcm maxIter 0 0 fuel).T.nc - 1) := by
+  have hi := (howson_init_state nums start A pcm hstart).1
+  have hf := hInit_feas nums start A pcm hstart hcost
+  unfold polymLcp at haf ⊢
+  apply hRun_feas nums start maxIter (nums.foldl (· + ·) 0 + nums.length) fuel _ none _ haf
+  intro _
+  refine ⟨hi.nr, by rw [hi.nc]; omega, ?_⟩
+  intro i hin
+  have e : (hInit nums start (hTableau nums A pcm)).1.nc - 1 = 2 * (nums.foldl (· + ·) 0 + nums.length) := by
+    rw [hi.nc]; omega
+  show 0 ≤ (hInit nums start (hTableau nums A pcm)).1.get i ((hInit nums start (hTableau nums A pcm)).1.nc - 1)
+  rw [e]; exact hf i hin
+
+/-- **Soundness at tolerances 0, LCP form** (no certificate on the final state): for every polymatrix
+    game with non-negative LCP costs, every well-formed start and `max_iter`, if the run reports
+    convergence (ghost flags clean, model fuel sufficient), the basic solution `(w, z)` of the final
+    tableau solves the LCP of lines 87-118 — `w - M z = q`, `w, z ≥ 0`, `w_k z_k = 0` — and its
+    `x`-part is the returned profile. Named partial with respect to the property's wording: the
+    algebraic passage from an LCP solution to "probability vectors forming a Nash equilibrium of the
+    polymatrix game" is not formalised (it is what the exact spec oracle checks on every run). -/
+theorem howson_converged_nash_partial (nums start : List Nat) (A : Nat → Nat → Nat → Nat → K) (pcm : K)
+    (maxIter : Int) (fuel : Nat)
+    (hstart : ∀ q, q < nums.length → start.getD q 0 < nums.getD q 0)
+    (hcost : ∀ i j, i < nums.foldl (· + ·) 0 → j < nums.foldl (· + ·) 0 →
+      0 ≤ hM nums A pcm (nums.foldl (· + ·) 0) i j)
+    (hconv : (polymLcp nums start A pcm maxIter 0 0 fuel).converging = true)
+    (haf : (polymLcp nums start A pcm maxIter 0 0 fuel).allFound = true)
+    (hneg : (polymLcp nums start A pcm maxIter 0 0 fuel).negP = false)
+    (herr : (polymLcp nums start A pcm maxIter 0 0 fuel).err = false)
+    (hfuel : (polymLcp nums start A pcm maxIter 0 0 fuel).outOfFuel = false) :
+    let st := polymLcp nums start A pcm maxIter 0 0 fuel
+    let n := nums.foldl (· + ·) 0 + nums.length
+    let u := uSol st.T st.basis n
+    RowsSat (hTableau nums A pcm) u n ∧ (∀ j, 0 ≤ u j) ∧ (∀ k, k < n → u k * u (k + n) = 0) ∧
+    (∀ k, k < nums.foldl (· + ·) 0 → (hNE nums st).getD k 0 = u (k + n)) :=
+  howson_converged_lcp_solution_partial nums start A pcm maxIter 0 0 (le_refl _) fuel hstart hconv haf hneg herr
+    hfuel (howson_feasible nums start A pcm maxIter fuel hstart hcost haf)
+
+/-- non-vacuity: matching pennies from the start `(0, 0)` at exact rationals with tolerances 0 —
+    the run converges in 4 pivots, the ghost flags are clean, the final right-hand side is
+    non-negative, and the profile is `((1/2, 1/2), (1/2, 1/2))` -/
+def mpState : HState Rat :=
+  polymLcp [2, 2] [0, 0] (polyA [2, 2] [[1, -1, -1, 1], [-1, 1, 1, -1]]) (hPcm [1, -1, -1, 1, -1, 1, 1, -1]) (-1) 0 0 100
+
+example : mpState.converging = true ∧ mpState.allFound = true ∧ mpState.negP = false ∧ mpState.err = false ∧
+    mpState.outOfFuel = false ∧ mpState.numIter = 4 ∧ hCert [2, 2] mpState = true ∧
+    hNE [2, 2] mpState = [1/2, 1/2, 1/2, 1/2] := by decide +kernel
+
+/-- non-vacuity of the cost hypothesis (`positive_cost_maker = max + 2 = 3` here) and of the start
+    hypothesis for the same game -/
+example : (∀ i, i < 4 → ∀ j, j < 4 →
+      0 ≤ hM [2, 2] (polyA [2, 2] ([[1, -1, -1, 1], [-1, 1, 1, -1]] : List (List Rat)))
+        (hPcm [1, -1, -1, 1, -1, 1, 1, -1]) 4 i j) ∧
+    (∀ q, q < [2, 2].length → ([0, 0] : List Nat).getD q 0 < [2, 2].getD q 0) := by
+  constructor
+  · decide +kernel
+  · decide
+
+end howson
 
 end QE.C15
